@@ -72,6 +72,47 @@ def run_prefix(system, state, prefix):
                 steps.append((tid, 0, path))
             else:
                 raise RuntimeError("prefix directive did not terminate: {0}".format(directive))
+        elif kind == "rr":
+            # round-robin over all threads until client `tid` is about to run the given statement
+            want = directive[2]
+            for _ in range(3000):
+                pc = state["T{0}.pc".format(tid)]
+                if pc < 0:
+                    break
+                node = system.nodes[pc]
+                if all(getattr(node, key) == value for key, value in want.items()):
+                    break
+                progressed = False
+                for t in range(len(system.threads)):
+                    pc = state["T{0}.pc".format(tid)]
+                    if pc >= 0 and all(getattr(system.nodes[pc], key) == value for key, value in want.items()):
+                        break
+                    res = system.step_concrete(state, t, 0)
+                    if res is not None:
+                        state, path = res
+                        steps.append((t, 0, path))
+                        progressed = True
+                if not progressed:
+                    break
+            else:
+                raise RuntimeError("prefix directive did not terminate: {0}".format(directive))
+        elif kind == "rr_prog":
+            goal = directive[2]
+            key = "T{0}.client{0}.prog".format(tid)
+            for _ in range(3000):
+                if state[key] >= goal or state["T{0}.pc".format(tid)] < 0:
+                    break
+                progressed = False
+                for t in range(len(system.threads)):
+                    if state[key] >= goal:
+                        break
+                    res = system.step_concrete(state, t, 0)
+                    if res is not None:
+                        state, path = res
+                        steps.append((t, 0, path))
+                        progressed = True
+                if not progressed:
+                    break
         elif kind == "steps":
             for _ in range(directive[2]):
                 res = system.step_concrete(state, tid, 0)
@@ -91,7 +132,8 @@ def model_observations(system, state, universe, lo):
            "cb_count": [state["cb_count[{0}]".format(j)] for j in range(U.R)],
            "cb_last": [(U.describe(state["cb_data[{0}]".format(j)]), U.describe(state["cb_exc[{0}]".format(j)]),
                         U.describe(state["cb_extra[{0}]".format(j)])) for j in range(U.R)],
-           "max_running": state["max_running"], "clients": {}}
+           "max_running": state["max_running"], "clients": {},
+           "client_done": {c: state["T{0}.pc".format(c)] < 0 for c in range(U.C)}}
     for c in range(U.C):
         prefix = "T{0}.client{0}.".format(c)
         vals = {}
@@ -118,6 +160,11 @@ def conforms(model_obs, real_obs, universe):
         diffs.append("exec_count model {0} real {1}".format(model_obs["exec_count"], real_obs["exec_count"]))
     if model_obs["finished"] != real_obs["finished"]:
         diffs.append("finished model {0} real {1}".format(model_obs["finished"], real_obs["finished"]))
+    for c, done in model_obs.get("client_done", {}).items():
+        real_done = (real_obs.get("client_done") or {}).get(c)
+        if real_done is not None and bool(real_done) != bool(done):
+            diffs.append("client {0} finished: model {1} real {2}".format(c, done, real_done))
+
     def norm_real(v):
         if isinstance(v, bool):
             return int(v)
@@ -189,7 +236,7 @@ def run_job(job):
             entry = {"prop": v["prop"], "finding": v["finding"], "schedule": v["schedule"]}
             try:
                 states, steps = bmc.trim_schedule(system, state0, v["schedule"])
-                at = bmc.violated_concretely(v["_prop"], states)
+                at = bmc.violated_concretely(v["_prop"], states, system)
                 entry["model_confirms"] = at is not None
                 if at is not None:
                     steps = steps[:at]
